@@ -294,8 +294,10 @@ class PathCtx:
             r, model = self.solve([z3.Not(formula)], want_model=True)
         dt = time.time() - t0
         status = _status(r)
-        ob = Obligation(name, status, dt, detail, list(self.decisions[:self.cursor]),
-                        self.engine.model_summary(self, model) if model is not None else None,
+        ms = self.engine.model_summary(self, model) if model is not None else None
+        if ms is not None and self.__dict__.get("approx_ops"):
+            ms["__approximated__"] = sorted(set(self.approx_ops))
+        ob = Obligation(name, status, dt, detail, list(self.decisions[:self.cursor]), ms,
                         site=site, props=tuple(props))
         self.engine.record(ob)
         return status
